@@ -129,6 +129,9 @@ func judge(u *unitCase, o *obs) (string, *hk.Failure) {
 	}
 	for _, a := range al {
 		if bytes.Equal(a.b, o.Out) {
+			if u.Kind == "unit" && !o.Closed {
+				return a.label, &hk.Failure{Sig: "close-not-propagated:" + o.Kind, What: "Close on the decoded body did not close the underlying body", Input: in}
+			}
 			return a.label, nil
 		}
 	}
